@@ -85,6 +85,71 @@ def translate(text):
     return tr.st(P(tokenize(body)).stmt()), msgs, consts
 
 
+BVARS = ['_yybytes_len', 'n', 'i', 'buf', 'b', 'b->yy_is_our_buffer', 'scan_result']
+BLEAN = ['vLen', 'vN', 'vI', 'vBuf', 'vB', 'fOurs', 'vScanResult']
+
+
+class TrB(Y.Tr):
+    """yy_scan_bytes(): the array is the fresh memory `buf`, the caller's bytes are the read-only table 0"""
+    def var(self, name):
+        if name not in BVARS:
+            raise TranslateError('variable %s is not part of yy_scan_bytes' % name)
+        return BVARS.index(name)
+
+    def ex(self, e):
+        k = e[0]
+        if k == 'index' and e[1] == ('id', 'buf'):
+            p, i, q = self.ex(e[2])
+            return p, '(.idx %s)' % i, q
+        if k == 'index' and e[1] == ('id', 'yybytes'):
+            p, i, q = self.ex(e[2])
+            return p, '(.tab 0 %s)' % i, q
+        return super().ex(e)
+
+    def assign(self, e):
+        lv, op, rhs = e[1], e[2], e[3]
+        if lv == ('id', 'buf') and op == '=' and rhs[0] == 'call' and rhs[1] == 'yyalloc':
+            p, n, q = self.ex(rhs[2][0])
+            if p or q:
+                raise TranslateError('side effect in an allocation size')
+            return ['(.growTo %s)' % n, '(.assign %d (.lit 1))' % BVARS.index('buf')]
+        if lv == ('id', 'b') and op == '=' and rhs[0] == 'call' and rhs[1] == 'yy_scan_buffer':
+            # yy_scan_buffer(buf, n): a logged call (with the size), its result whatever the variable scan_result holds
+            if rhs[2][0] != ('id', 'buf'):
+                raise TranslateError('yy_scan_buffer called on something else than buf')
+            p, n, q = self.ex(rhs[2][1])
+            return ['(.call 0 %s)' % n, '(.assign %d (.var %d))' % (BVARS.index('b'), BVARS.index('scan_result'))]
+        if lv[0] == 'index' and lv[1] == ('id', 'buf') and op == '=' and rhs[0] != 'assign':
+            p1, i, q1 = self.ex(lv[2]); p2, r, q2 = self.ex(rhs)
+            return p1 + p2 + ['(.store %s %s)' % (i, r)] + q1 + q2
+        return super().assign(e)
+
+
+def translate_bytes(text):
+    m = re.search(r'\n\s*yybuffer\s+yy_scan_bytes\s*\([^)]*\)\s*\{', text)
+    if not m:
+        raise TranslateError('function yy_scan_bytes not found in the generated scanner')
+    i = m.end() - 1
+    depth, j = 0, i
+    while True:
+        if text[j] == '{':
+            depth += 1
+        elif text[j] == '}':
+            depth -= 1
+            if depth == 0:
+                break
+        j += 1
+    body = re.sub(r'/\*.*?\*/', ' ', text[i:j + 1], flags=re.S)
+    consts = {'NULL': 0}
+    mm = re.search(r'^[ \t]*#[ \t]*define[ \t]+YY_END_OF_BUFFER_CHAR[ \t]+\(?(\d+)\)?', text, re.M)
+    if not mm:
+        raise TranslateError('constant YY_END_OF_BUFFER_CHAR not found')
+    consts['YY_END_OF_BUFFER_CHAR'] = int(mm.group(1))
+    msgs = []
+    tr = TrB({}, consts, msgs)
+    return tr.st(P(tokenize(body)).stmt()), msgs
+
+
 def lean_file(ns, prog, msgs, consts, origin):
     q = lambda s: '"' + s.replace('\\', '\\\\').replace('"', '\\"') + '"'
     L = ['-- GENERATED by tools/fv/gen_scanbuf.py from %s.  Do not edit.' % origin,
@@ -108,12 +173,20 @@ def generate(flex, workdir):
         raise TranslateError('flex failed on the probe: ' + p.stderr[-200:])
     text = open(cf, errors='replace').read()
     prog, msgs, consts = translate(text)
+    bprog, bmsgs = translate_bytes(text)
     for f in (lf, cf):
         try:
             os.unlink(f)
         except OSError:
             pass
-    return lean_file('ScanBuf', prog, msgs, consts, "a scanner flex (built from /repo's current tree) has just generated"), {'messages': msgs}
+    q = lambda s: '"' + s.replace('\\', '\\\\').replace('"', '\\"') + '"'
+    t = lean_file('ScanBuf', prog, msgs, consts, "a scanner flex (built from /repo's current tree) has just generated")
+    extra = ['namespace FlexVerif.Gen.ScanBytes', 'open FlexVerif.Imp',
+             '/-- variables: ' + ', '.join('%d = %s' % (i, n) for i, n in enumerate(BVARS)) + '; the array: the fresh memory buf; table 0: the bytes handed in -/']
+    extra += ['def %s : Nat := %d' % (n, i) for i, n in enumerate(BLEAN)]
+    extra += ['def msgs : List String := [%s]' % ', '.join(q(m) for m in bmsgs),
+              '/-- yy_scan_bytes(yybytes, _yybytes_len) -/', 'def scanBytes : St :=\n  ' + bprog, 'end FlexVerif.Gen.ScanBytes']
+    return t + '\n'.join(extra) + '\n', {'messages': msgs}
 
 
 if __name__ == '__main__':
